@@ -75,7 +75,7 @@ def check(c):
     # ---------------- JSON escaper ----------------
     cases = gen_json_cases(c)
     lines = [sx([Sym('json-escape'), s]) for s in cases]
-    impl = c.impl(lines)
+    impl = c.impl('text', lines)
     model = c.model('text', lines)
     # spec: the model's RFC 8259 decoder applied to the implementation's output
     dec_lines = []
@@ -114,7 +114,7 @@ def check(c):
     # ---------------- inline substitution ----------------
     docs = gen_inline_docs(c)
     dl = [sx([Sym('inline'), cps(d)]) for d in docs]
-    impl = c.impl(dl)
+    impl = c.impl('text', dl)
     raw = c.model('text', [sx([Sym('inline-raw'), cps(d)]) for d in docs])
     # expressions cut by the model, evaluated by the implementation in order on a fresh context
     ev_lines = []
@@ -124,7 +124,7 @@ def check(c):
         raws.append(rp)
         srcs = [p[1] for p in rp if p[0] == b'e']
         ev_lines.append(sx([Sym('eval-seq')] + srcs))
-    evs = c.impl(ev_lines)
+    evs = c.impl('text', ev_lines)
     json_lines = []
     for i, d in enumerate(docs):
         key = 'i:' + d
@@ -186,10 +186,10 @@ def replay(c, obj):
     print(json.dumps(obj, indent=1))
     if 'input_codepoints' in obj:
         line = sx([Sym('json-escape'), obj['input_codepoints']])
-        print('impl :', c.impl([line])[0])
+        print('impl :', c.impl('text', [line])[0])
         print('model:', c.model('text', [line], cross=False)[0])
     elif 'doc' in obj:
         line = sx([Sym('inline'), cps(obj['doc'])])
-        print('impl :', c.impl([line])[0])
+        print('impl :', c.impl('text', [line])[0])
         print('model:', c.model('text', [sx([Sym('inline-raw'), cps(obj['doc'])])], cross=False)[0])
     return 0
